@@ -8,6 +8,7 @@ import (
 	"path/filepath"
 	"runtime/debug"
 	"sort"
+	"strings"
 
 	"github.com/mosaicnetworks/babble/src/config"
 	"github.com/mosaicnetworks/babble/src/crypto/keys"
@@ -32,6 +33,8 @@ type Config struct {
 	RefuseJoin   map[int]bool // the application refuses PEER_ADD of these key indexes
 	Liars        map[int]func(tick int) int64
 	WrapStore    func(idx int, s hg.Store) hg.Store
+	Solo         bool // only node 0 is started (DAG engine: one hashgraph fed by the harness)
+	BootstrapDir string // node 0 opens this existing Badger directory with Bootstrap=true
 }
 
 func (c Config) withDefaults() Config {
@@ -77,6 +80,8 @@ type SimNode struct {
 	Silent  bool // neither initiates nor answers
 	Down    bool // crashed / not yet started
 	Restarted bool // re-created from its store (pools were lost)
+	KeepDir bool // do not delete Dir on Close
+	Stalled int // insertion errors seen by this node after a fast-forward (documented limitation: ends the C13 obligation)
 	Ticks   int
 	FFStep  int // step of the last fast-forward (-1: full history)
 	Has     map[string]bool
@@ -96,6 +101,7 @@ type Plan struct {
 	DropReq    map[string]bool // kind → request lost
 	DropResp   map[string]bool // kind → response lost (responder acted)
 	SyncLimit  int             // >0: requester's sync limit for this exchange
+	FFFrom     int             // k+1: only node k answers fast-forward requests (0: everybody)
 	MutateReq  func(kind string, args interface{}) interface{}
 	MutateResp func(kind string, resp interface{}) interface{}
 	// Hook is called at the lock-release points: phase "pre" (before the
@@ -158,6 +164,16 @@ func NewCluster(cfg Config) *Cluster {
 		c.PeerIdx[PubHex(i)] = i
 	}
 	for i := 0; i < cfg.N; i++ {
+		if cfg.Solo && i > 0 {
+			break
+		}
+		if i == 0 && cfg.BootstrapDir != "" {
+			c.Nodes = append(c.Nodes, &SimNode{Idx: 0, Dir: cfg.BootstrapDir, Down: true})
+			c.Cfg.Badger = map[int]bool{0: true}
+			c.startNode(0, c.Genesis, true, false)
+			c.Nodes[0].KeepDir = true
+			continue
+		}
 		c.startNode(i, c.Genesis, false, false)
 	}
 	return c
@@ -211,6 +227,9 @@ func (c *Cluster) startNode(i int, currentPeers []*peers.Peer, bootstrap bool, f
 			sn.Dir = filepath.Join(c.Cfg.Dir, fmt.Sprintf("badger-%d", i))
 			os.RemoveAll(sn.Dir)
 		}
+		if old := c.Nodes[i]; old != nil {
+			sn.KeepDir = old.KeepDir
+		}
 		bs, err := hg.NewBadgerStore(conf.CacheSize, sn.Dir, false, nil)
 		if err != nil {
 			panic(fmt.Sprintf("harness: cannot open badger store: %v", err))
@@ -219,7 +238,8 @@ func (c *Cluster) startNode(i int, currentPeers []*peers.Peer, bootstrap bool, f
 	} else {
 		store = hg.NewInmemStore(conf.CacheSize)
 	}
-	if c.Cfg.WrapStore != nil {
+	if c.Cfg.WrapStore != nil && !bootstrap {
+		// (Hashgraph.Bootstrap type-asserts *BadgerStore: a restarted node gets the bare store)
 		store = c.Cfg.WrapStore(i, store)
 	}
 	sn.Store = store
@@ -251,7 +271,7 @@ func (c *Cluster) Close() {
 				n.Store.Close()
 			}
 		}()
-		if n.Dir != "" {
+		if n.Dir != "" && !n.KeepDir {
 			os.RemoveAll(n.Dir)
 		}
 	}
@@ -342,6 +362,9 @@ func (c *Cluster) deliver(from int, target string, kind string, args interface{}
 	if to == nil || to.Down || to.Silent {
 		return nil, fmt.Errorf("harness transport: %s unreachable", target)
 	}
+	if plan != nil && kind == "ff" && plan.FFFrom > 0 && toIdx != plan.FFFrom-1 {
+		return nil, fmt.Errorf("harness transport: ff request to %s dropped (serving peer fixed)", target)
+	}
 	if plan != nil && plan.DropReq[kind] {
 		return nil, fmt.Errorf("harness transport: %s request lost", kind)
 	}
@@ -380,8 +403,24 @@ func (c *Cluster) deliver(from int, target string, kind string, args interface{}
 	ch := make(chan net.RPCResponse, 1)
 	saved := c.active
 	c.active = to.Idx
-	to.Node.VProcessRPC(net.RPC{Command: args, RespChan: ch})
+	crashed := false
+	func() {
+		defer func() {
+			if r := recover(); r != nil {
+				if cs, ok := r.(CrashSentinel); ok && cs.Node == to.Idx {
+					crashed = true
+					return
+				}
+				panic(r)
+			}
+		}()
+		to.Node.VProcessRPC(net.RPC{Command: args, RespChan: ch})
+	}()
 	c.active = saved
+	if crashed {
+		c.crashNode(to.Idx)
+		return nil, fmt.Errorf("harness transport: %s crashed while serving the request", target)
+	}
 	var r net.RPCResponse
 	select {
 	case r = <-ch:
@@ -393,6 +432,9 @@ func (c *Cluster) deliver(from int, target string, kind string, args interface{}
 		c.plan = nil
 		plan.Hook(from, toIdx, kind, "post")
 		c.plan = savedPlan
+	}
+	if kind == "eager" && r.Error != nil && to.FFStep >= 0 {
+		to.Stalled++
 	}
 	if plan != nil && plan.DropResp[kind] {
 		return nil, fmt.Errorf("harness transport: %s response lost", kind)
@@ -445,8 +487,13 @@ func (c *Cluster) guard(name string, f func() error) (err error) {
 	defer func() {
 		c.depth = 0
 		if r := recover(); r != nil {
-			c.Panic = fmt.Sprintf("step %d %s: panic: %v\n%s", c.Step, name, r, debug.Stack())
-			err = fmt.Errorf("panic: %v", r)
+			if cs, ok := r.(CrashSentinel); ok {
+				c.crashNode(cs.Node)
+				err = fmt.Errorf("node %d crashed before store write %d", cs.Node, cs.Write)
+			} else {
+				c.Panic = fmt.Sprintf("step %d %s: panic: %v\n%s", c.Step, name, r, debug.Stack())
+				err = fmt.Errorf("panic: %v", r)
+			}
 		}
 		c.active = -1
 		c.plan = nil
@@ -474,7 +521,9 @@ func (c *Cluster) Gossip(i, j int, plan *Plan) error {
 		}
 		c.active = i
 		c.plan = plan
-		return c.Nodes[i].Node.VGossip(c.Nodes[j].Peer)
+		err := c.Nodes[i].Node.VGossip(c.Nodes[j].Peer)
+		c.noteStall(i, err)
+		return err
 	})
 }
 
@@ -490,6 +539,7 @@ func (c *Cluster) Pull(i, j int, plan *Plan) error {
 		c.active = i
 		c.plan = plan
 		_, err := c.Nodes[i].Node.VPull(c.Nodes[j].Peer)
+		c.noteStall(i, err)
 		return err
 	})
 }
@@ -608,11 +658,64 @@ func (c *Cluster) JoinAccepted(k, acceptedRound int) error {
 	})
 }
 
+func (c *Cluster) noteStall(i int, err error) {
+	if err == nil || c.Nodes[i].FFStep < 0 {
+		return
+	}
+	if strings.Contains(err.Error(), "harness transport") || strings.Contains(err.Error(), "Not in Babbling state") {
+		return
+	}
+	c.Nodes[i].Stalled++
+}
+
+// Restart replaces node i by a fresh instance. bootstrap=true reopens its
+// (Badger) store; otherwise the node starts from an empty store (fastSync
+// decides whether it will catch up by fast-forward).
+func (c *Cluster) Restart(i int, bootstrap, fastSync bool) error {
+	return c.guard(fmt.Sprintf("Restart(%d,bootstrap=%v,fastsync=%v)", i, bootstrap, fastSync), func() error {
+		old := c.Nodes[i]
+		if old == nil {
+			return fmt.Errorf("no such node")
+		}
+		cur := old.Node.GetPeers()
+		if !old.Down {
+			func() {
+				defer func() { recover() }()
+				old.Store.Close()
+			}()
+		}
+		if !bootstrap {
+			old.Dir = ""
+		}
+		sn := c.startNode(i, cur, bootstrap, fastSync)
+		sn.Restarted = true
+		sn.Submits = nil
+		if !bootstrap {
+			sn.FFStep = c.Step // no longer a full-history node
+		}
+		return nil
+	})
+}
+
+// Crash marks node i as down (its objects are abandoned).
+func (c *Cluster) Crash(i int) error {
+	return c.guard(fmt.Sprintf("Crash(%d)", i), func() error {
+		if c.Nodes[i] == nil {
+			return fmt.Errorf("no such node")
+		}
+		c.Nodes[i].Down = true
+		return nil
+	})
+}
+
 // FastForward: node i (in CatchingUp state) runs the real Node.fastForward.
 func (c *Cluster) FastForward(i int, plan *Plan) error {
-	return c.guard(fmt.Sprintf("FF(%d)", i), func() error {
+	return c.guard(fmt.Sprintf("FF(%d%s)", i, planStr(plan)), func() error {
 		if !c.usable(i) {
 			return fmt.Errorf("not usable")
+		}
+		if c.Nodes[i].Node.GetState() != state.CatchingUp {
+			return fmt.Errorf("not catching up")
 		}
 		c.active = i
 		c.plan = plan
@@ -672,6 +775,9 @@ func planStr(p *Plan) string {
 	}
 	if p.Hook != nil {
 		s += ",nested"
+	}
+	if p.FFFrom > 0 {
+		s += fmt.Sprintf(",from=%d", p.FFFrom-1)
 	}
 	return s
 }
@@ -743,3 +849,23 @@ func PubOf(i int) []byte { return keys.FromPublicKey(&Key(i).PublicKey) }
 
 // Custom runs f as one (guarded, traced) step.
 func (c *Cluster) Custom(name string, f func() error) error { return c.guard(name, f) }
+
+// crashNode abandons node i's in-memory objects; its Badger handle is closed so
+// that the directory can be reopened (a crash = the prefix of committed Badger
+// transactions; validated against real SIGKILLs by the crash check).
+func (c *Cluster) crashNode(i int) {
+	n := c.Nodes[i]
+	if n == nil || n.Down {
+		return
+	}
+	n.Down = true
+	c.Trace = append(c.Trace, fmt.Sprintf("  crash(%d)", i))
+	var st hg.Store = n.Store
+	if cs, ok := st.(*CrashStore); ok {
+		st = cs.Store
+	}
+	func() {
+		defer func() { recover() }()
+		st.Close()
+	}()
+}
